@@ -7,6 +7,24 @@ _A_NOTE = ('Trusted: CrossHair 0.0.110 proxy semantics and path pruning, z3 5.1.
            'before a VIOLATION is printed.')
 
 CLAIMS = {
+    'C14': dict(
+        engine='A-crosshair',
+        technique='bounded symbolic execution of the real code (CrossHair + z3); frame-condition oracle from an independent walker',
+        text=('For every member of a three-node family whose eight argument sites (positional-only set / unset, *args '
+              'element, unset keyword, **kwargs entry with / without value, annotated parameter, unset keyword-only) '
+              'all carry tag sets drawn from T0 <- T1 <- T2, U by a solver-enumerated affine pattern, every query tag, '
+              'each of set_tagged / select(tag=).replace (deepcopy on / off), after each of ten transformations (none, '
+              'copy, deepcopy, cast, JSON round trip, apply_diff towards the tagged configuration, pickle, copy_with, '
+              'deepcopy_with, identity traversal): list_tags equals the union of tag sets over reachable Buildables '
+              '(with and without superclasses), the transformation preserves arguments, tags and sharing, and after '
+              'the assignment every argument of every still-reachable Buildable whose tag set contains the query tag '
+              'or a subclass holds the (unbounded symbolic) value while no other argument and no tag changed. '
+              'Separately: three-step histories of add/remove/set/clear tag, TaggedValue assignment, plain assignment '
+              'and deletion against a dict-of-sets model; TaggedValues directly or inside list / tuple / dict / nested '
+              'list build to their value or make the build fail when never given one; annotation tags combine with '
+              'constructor-supplied TaggedValue tags and survive the transformations. One listed known finding '
+              '(diffing cannot address positional arguments).'),
+        note=_A_NOTE + ' JSON transformation: the text stage is replaced by the jsonify data-model stub (validated against json.dumps/json.loads in every run). Diff and pickle cubes use concrete leaves.'),
     'C08': dict(
         engine='A-crosshair',
         technique='bounded symbolic execution of the real code (CrossHair + z3) against an independent path enumerator',
